@@ -52,7 +52,10 @@ AverageDirectionalIndex_Step(cfg, st, c, P, V) ==
                  x    == MStep(cfg.method2, st.ma2, tt)
                  amag == FxMax(st.amag, FxMax(FxAbs(p.out), FxAbs(m.out)))
                  mag  == IF cfg.method1.ma \in AverageDirectionalIndex_RunSum THEN amag ELSE dmag
-                 cs   == IF FxIsZero(sden) \/ cfg.method1.ma \in AverageDirectionalIndex_WellCond THEN st.cs
+                 \* an exact sum of 0 after non-zero moves (running sums / negative weights): the code divides two rounding
+                 \* residues there, the quotient is not determined (quotient rule) and neither is the ADX from then on
+                 cs   == IF cfg.method1.ma \in AverageDirectionalIndex_WellCond THEN st.cs
+                         ELSE IF FxIsZero(sden) THEN (IF FxIsZero(mag) THEN st.cs ELSE FxFromInt(1000))
                          ELSE FxMax(st.cs, FxAdd(FxOne, FxDiv(FxMul(FxAdd(FxOne, FxAbs(tt)), mag), FxAbs(sden))))
                  sn   == FxMulInt(dmag, 4)
                  sd   == FxMulInt(trmag, 4)
